@@ -344,7 +344,7 @@ pub fn plan_case(id: &str, data: &[u8]) -> Option<Case> {
                             let mask = u16::from(r.u8()) | (u16::from(r.u8() & 1) << 8);
                             let sel: Vec<usize> = (0..9).filter(|b| mask >> b & 1 == 1).collect();
                             let ne = r.below(5);
-                            let extra = (0..ne).map(|_| (r.u8(), 0u8, 0u8, 0u8)).collect();
+                            let extra = (0..ne).map(|_| (r.u8(), r.u8(), r.u8(), r.u8())).collect();
                             let f = r.u8();
                             props::c13::make_projected(v9, sel, f & 1 == 1, f & 2 == 2, extra, u64::from(r.u32()) << 8 | 1)
                         })
@@ -398,6 +398,17 @@ pub fn plan_case(id: &str, data: &[u8]) -> Option<Case> {
     }
     if id == "C11" {
         case.allowed.truncate(1);
+        // retransmission: one packet repeated right after itself
+        let d = r.u8();
+        if d & 1 == 1 {
+            if let Some(c) = case.calls.get_mut(0) {
+                if !c.packets.is_empty() {
+                    let i = (d as usize >> 1) % c.packets.len();
+                    let pk = c.packets[i].clone();
+                    c.packets.insert(i + 1, pk);
+                }
+            }
+        }
     }
     if case.calls.iter().all(|c| c.packets.is_empty()) {
         return None;
